@@ -189,7 +189,11 @@ def str_count(it, s, sub):
         return c
     code = ord(sub)
     n = V.slen(s)
-    c = ctx.fresh_int('count')
+    memo = ctx.ghost.setdefault('str_count', {})
+    mk = (V.str_key(s), sub)
+    if mk in memo:
+        return memo[mk]
+    c = memo[mk] = ctx.fresh_int('count')
     i1 = ctx.fresh_int('cfirst')
     i2 = ctx.fresh_int('clast')
 
@@ -217,7 +221,7 @@ def str_all_pred(it, s, name):
     n = V.slen(s)
     if isinstance(s, str):
         return getattr(s, name)()
-    body = V.str_all(it.ctx, s, lambda code: V.char_pred(name, code))
+    body = V.str_all(it.ctx, s, lambda code: V.char_pred(name, code), memo=name)
     return z_and(simp(zint(n) >= 1), body)
 
 
